@@ -18,9 +18,18 @@ pub fn shadowvm_path() -> std::path::PathBuf {
     exe.parent().unwrap().join("shadowvm")
 }
 
+/// The worker binary for a case: the pseudo option `__build:base` selects the build without `vo_bit`.
+pub fn worker_for(case: &Case) -> std::path::PathBuf {
+    if case.opts.iter().any(|(k, v)| k == "__build" && v == "base") {
+        std::path::PathBuf::from(format!("{}/harness/target-base/release/shadowvm", crate::runner::VERIF_DIR))
+    } else {
+        shadowvm_path()
+    }
+}
+
 pub fn run_case(case: &Case, timeout_s: u64) -> CaseResult {
     let txt = serde_json::to_string(case).unwrap();
-    let mut child = match Command::new(shadowvm_path()).arg("-").stdin(Stdio::piped()).stdout(Stdio::piped()).stderr(Stdio::piped()).spawn() {
+    let mut child = match Command::new(worker_for(case)).arg("-").stdin(Stdio::piped()).stdout(Stdio::piped()).stderr(Stdio::piped()).spawn() {
         Ok(c) => c,
         Err(e) => return CaseResult::Broken(format!("spawn: {}", e)),
     };
